@@ -11,7 +11,6 @@ import (
 	"math"
 	"strconv"
 	"strings"
-
 )
 
 type sx struct {
